@@ -176,7 +176,7 @@ Proof.
       - right. split; [reflexivity|lia]. }
     constructor.
     + lia.
-    + apply pow_ok_S; [exact Hd|exact (di_pow _ _ _ _ I)].
+    + apply pow_ok_clip, pow_ok_S; [exact Hd|exact (di_pow _ _ _ _ I)].
     + intros i Hi. rewrite HD' by assumption. pose proof (di_diag _ _ _ _ I i Hi). lia.
     + intros i j Hi Hj Hne H0 e He.
       destruct (Hcase i j Hi Hj Hne) as [[_ [_ [E _]]]|[EL E]]; [lia|].
@@ -188,7 +188,7 @@ Proof.
       * split; [lia|]. split; [exact W|]. apply (di_zero _ _ _ _ I i j Hi Hj Hne E0).
       * destruct (di_set _ _ _ _ I i j Hi Hj Hne Hnz) as [Hlt Hsd]. split; [lia|exact Hsd].
     + intros i j Hi Hj Hne. rewrite tab_spec by assumption.
-      pose proof (pow_ok_S d nP Hd (di_pow _ _ _ _ I) i j Hi Hj) as [_ HP].
+      pose proof (pow_ok_clip _ _ (pow_ok_S d nP Hd (di_pow _ _ _ _ I)) i j Hi Hj) as [_ HP].
       unfold znz. rewrite andb_true_iff, negb_true_iff, Z.eqb_neq, Nat.eqb_eq. rewrite HP. tauto.
   - (* exit *)
     injection Hrun as <-. intros i j Hi Hj Hne. split.
